@@ -31,6 +31,7 @@ DEFAULT_CFG = {
     "line_files": None,
     "max_steps": 60_000,
     "ext_payload": '"ext"',
+    "allow_unmapped": False,
 }
 
 OUTCOMES = {
@@ -256,7 +257,7 @@ class Driver:
             if cur["outcome"] == "internal":
                 self.final = {"status": "INTERNAL"}
                 break
-            if self.backend.unmapped and self.internal is None:
+            if self.backend.unmapped and self.internal is None and not cfg["allow_unmapped"]:
                 self.internal = f"cannot map updates to program positions: {self.backend.unmapped[:3]}"
                 self.final = {"status": "INTERNAL"}
                 break
